@@ -473,7 +473,7 @@ func ruleScale(rule string) func(*Ctx) {
 				case "(ClipperOffset).Execute64":
 					a := ci.Common().Args[1]
 					m, ok := a.(*ssa.BinOp)
-					good := ok && m.Op == token.MUL && ((isParamNamed(m.X, "delta") && containsVal(scales, m.Y)) || (isParamNamed(m.Y, "delta") && containsVal(scales, m.X)))
+					good := ok && m.Op == token.MUL && ((m.X == ssa.Value(f.Params[1]) && containsVal(scales, m.Y)) || (m.Y == ssa.Value(f.Params[1]) && containsVal(scales, m.X)))
 					c.check(good, rule+".in", rule+".in:InflatePathsD:delta", ci.Pos(), "InflatePathsD", "delta is passed as delta*scale", "the offset distance handed to the integer offsetter is not delta*scale: "+a.String(),
 						"delta is a length: it must be multiplied by 10^p like the coordinates")
 				case "NewClipperOffset":
